@@ -6,8 +6,10 @@ import random
 
 # --------------------------------------------------------------------------- Snappy reference
 
-def snappy_ref_decode(s):
-    """Strict decoder from format_description.txt.  Returns bytes or None (invalid block)."""
+def snappy_ref_decode(s, wrap32=False):
+    """Strict decoder from format_description.txt.  Returns bytes or None (invalid block).
+    wrap32=True reproduces a laxity of libsnappy 1.1.9 (literal length computed in uint32_t: a 4-byte length
+    field of ff ff ff ff gives length 0); only used to explain a libsnappy acceptance, never as the oracle."""
     n = len(s)
     i = 0
     v = 0
@@ -35,6 +37,8 @@ def snappy_ref_decode(s):
                 if i + nb > n:
                     return None
                 ln = int.from_bytes(s[i:i + nb], "little") + 1
+                if wrap32:
+                    ln &= 0xFFFFFFFF
                 i += nb
             if i + ln > n:
                 return None
@@ -530,3 +534,97 @@ def far_reference_streams(rng, tier):
             n0 = rng.randrange(65536, 150000)
             lz4_stream(n0, [(rng.randrange(32768, 65536), rng.randrange(4, 1000), rng.randrange(0, 30)) for _ in range(40)], 12, "lz4_far_random")
     return res
+
+
+# --------------------------------------------------------------------------- third-round additions
+
+def snappy_element_boundaries(s):
+    """offsets of the element boundaries of a VALID raw Snappy block (after the preamble, between elements, end)"""
+    i = 0
+    while s[i] >= 0x80:
+        i += 1
+    i += 1
+    res = [i]
+    n = len(s)
+    while i < n:
+        tag = s[i]; i += 1
+        k = tag & 3
+        if k == 0:
+            m = tag >> 2
+            if m < 60:
+                ln = m + 1
+            else:
+                nb = m - 59
+                ln = int.from_bytes(s[i:i + nb], "little") + 1
+                i += nb
+            i += ln
+        else:
+            i += (1, 2, 4)[k - 1]
+        res.append(i)
+    return res
+
+
+HUGE_LITERALS = [bytes([0xFC]) + v.to_bytes(4, "little") for v in
+                 (0xFFFFFFFF, 0xFFFFFFFE, 0xFFFFFFFD, 0xFFFFFFF0, 0xFFFFFF00, 0x80000000, 0x7FFFFFFF, 0xFFFF0000)] + \
+                [b"\xF8\xFF\xFF\xFF", b"\xF4\xFF\xFF", b"\xF0\xFF", b"\xFC\xFF\xFF\xFF\xFF\xFC\xFF\xFF\xFF\xFF"]
+
+
+def overflow_splices(rng, s, limit=None):
+    """A valid stream with an element spliced in at every element boundary whose length does not fit the
+    arithmetic of a 32-bit implementation: literal with a 4-byte length field holding 2^32-1 (length 2^32, wraps
+    to 0 in uint32_t), 2^32-2, ..., and the largest 3/2/1-byte forms.  All are invalid (the literal bytes are
+    not there); classified by the reference decoder anyway."""
+    res = []
+    bs = snappy_element_boundaries(s)
+    for b in bs:
+        for h in (HUGE_LITERALS if limit is None else rng.sample(HUGE_LITERALS, limit)):
+            res.append(s[:b] + h + s[b:])
+    return res
+
+
+def big_lines(tier, codecs=("snappy", "lz4")):
+    """compress cases whose input is generated in the driver: sizes around every length boundary of the Snappy
+    preamble varint (2^7, 2^14, 2^21, 2^28) and inside the four-byte range (4 MiB .. 10 MiB)"""
+    sizes = []
+    for b in (7, 14, 21):
+        sizes += [(1 << b) - 1, 1 << b, (1 << b) + 1]
+    sizes += [3 << 20, 4 << 20, (4 << 20) + 1, 5 << 20, (6 << 20) - 1, 6 << 20, (8 << 20) + 5, (10 << 20) - 1]
+    if tier == "thorough":
+        sizes += [(1 << 28) - 1, 1 << 28, (1 << 28) + 1, (12 << 20) + 3, (1 << 24) + 1, (1 << 26) - 1]
+    lines = []
+    for codec in codecs:
+        for n in sizes:
+            kinds = [("z", 1), ("p", 40)] if n < (1 << 27) else [("z", 1)]
+            if codec == "snappy" and n < (1 << 23):
+                kinds.append(("r", 1000))
+            if codec != "snappy" and n > (1 << 23) and n < (1 << 27):
+                kinds = [("p", 40)]
+            for k, per in kinds:
+                lines.append(f"big {codec} {k} {n} {per}")
+    return lines
+
+
+def judge_big(line, out):
+    """oracle for a `big` case: success at the bound, round trip, reference decoder, and (snappy) the preamble is
+    the canonical varint of the input length"""
+    _, codec, kind, n, per = line.split()
+    n = int(n)
+    t = out.split()
+    if not t or t[0] not in ("OK", "ERR"):
+        return [f"carquet_{codec}_compress: crash / sanitizer report on a {n}-byte input: {out[:200]}"], None
+    if t[0] == "ERR":
+        return [f"carquet_{codec}_compress fails with status {t[1]} on a {n}-byte input at the advertised bound"], None
+    d = dict(x.split("=", 1) for x in t[1:] if "=" in x)
+    bad = []
+    head = bytes.fromhex(d.get("head", "")) if d.get("head", "-") != "-" else b""
+    if int(d["len"]) > int(d["bound"]):
+        bad.append(f"carquet_{codec}_compress wrote {d['len']} bytes for a {n}-byte input, more than its bound {d['bound']}")
+    if codec == "snappy":
+        want = varint(n)
+        if head[:len(want)] != want:
+            bad.append(f"carquet_snappy_compress: the preamble of a {n}-byte input is {head[:5].hex()}, the varint of {n} is {want.hex()} (not a valid raw Snappy block for this length)")
+    if d.get("rt") != "1":
+        bad.append(f"carquet_{codec}_compress of a {n}-byte input ({kind}, period {per}): carquet's decompressor does not return the input")
+    if d.get("lib") == "0":
+        bad.append(f"carquet_{codec}_compress of a {n}-byte input ({kind}, period {per}): the reference decoder does not return the input")
+    return bad, head
